@@ -1,12 +1,26 @@
 """PrintingGen: the integer/rational arithmetic of qexpy/utils/printing.py, regenerated from the source text.
 
-Emitted (coq/Gen/PrintingGen.v), everything else in that file is modelled by hand in Model/Printing.v and tied by the
+Emitted (coq/Gen/PrintingGen.v); everything else in that file is modelled by hand in Model/Printing.v and tied by the
 correspondence:
   gen_back_off_exp_err / _val  (order n : Z) : Z   exponent in  back_off = 10 ** (...)   of __round_values_to_sig_figs
   gen_decimals_exp             (order n : Z) : Z   number_of_decimals = ...               of __find_number_of_decimals
   gen_clamp                    (d : Z) : Z         return number_of_decimals if number_of_decimals > 0 else 0
   gen_snap_next, gen_snap_bump (result : Z) : Z    and  gen_snap_factor : Q               of the local helper order_of
-Fail closed: any other shape raises TranslateError.
+
+How: the two functions are EXECUTED SYMBOLICALLY once per significant-figure mode (the mode is concrete, the two numbers,
+the number of figures and the validity of a number are symbols; an `if` on the validity of a number forks).  The result of
+each run must be the decision tree the hand-written model has for that mode:
+
+  __round_values_to_sig_figs:  if valid(ref):  (round(value / 10**z) * 10**z, round(error / 10**z) * 10**z)
+                               else:           (value, error)
+       with ref = error in AUTOMATIC and ERROR mode, value in VALUE mode, z an integer expression in
+       floor(log10(abs(ref))) and the number of figures  -> gen_back_off_exp_*
+  __find_number_of_decimals:   clamp(d)  with d an integer expression in  (order_of(ref) if valid(ref) else order_of(other))
+       and the number of figures  -> gen_decimals_exp, gen_clamp
+
+so the way the code is written (nested or module-level helpers, settings fetched once or twice, mirrored branches or one
+"reference" variable, `x if x > 0 else 0` or `max(x, 0)`) does not matter, and anything the executor does not understand
+-- an unknown call, another statement form, a different tree -- raises TranslateError (fail closed).
 """
 import ast
 import os
@@ -16,24 +30,262 @@ from fractions import Fraction
 from translate import TranslateError
 
 FILE = "qexpy/utils/printing.py"
+MODES = ["AUTOMATIC", "VALUE", "ERROR"]
+VALID_REF = ast.dump(ast.parse("not m.isinf(X) and not m.isnan(X) and X != 0", mode="eval").body)
 
 
 def terr(node, msg):
     raise TranslateError(FILE, node, msg)
 
 
-def zexpr(node, env):
-    """integer expression over the names in env, integer literals, + - unary -"""
-    if isinstance(node, ast.Name) and node.id in env:
-        return env[node.id]
-    if isinstance(node, ast.Constant) and isinstance(node.value, int) and not isinstance(node.value, bool):
-        return "({})".format(node.value)
-    if isinstance(node, ast.UnaryOp) and isinstance(node.op, ast.USub):
-        return "(- {})".format(zexpr(node.operand, env))
-    if isinstance(node, ast.BinOp) and isinstance(node.op, (ast.Add, ast.Sub)):
-        return "({} {} {})".format(zexpr(node.left, env), "+" if isinstance(node.op, ast.Add) else "-",
-                                   zexpr(node.right, env))
-    terr(node, "integer expression outside the subset: " + ast.unparse(node))
+# ---- symbolic values ---------------------------------------------------------------------------------
+# ("num", "value"|"error")      one of the two inputs
+# ("int", k) ("n",) ("order", x) ("orderof", x) ("sel", p, f) ("add", a, b) ("sub", a, b) ("neg", a)   integer expressions
+# ("max", a, b)  ("ifz", cmp, a, k, body, orelse)                                                        clamps
+# ("pow10", z)   ("quot", num, pow)  ("round", quot)  ("rounded", x, z)
+# ("bool", b)    ("valid", x)  ("notvalid", x)     ("enum", name)   ("settings",)   ("tuple", [..])
+# ("ifvalid", x, a, b)                              decision on the validity of input x
+def is_int(v):
+    return v[0] in ("int", "n", "order", "orderof", "sel", "add", "sub", "neg")
+
+
+class Exec:
+    def __init__(self, tree, mode):
+        self.tree, self.mode = tree, mode
+
+    # -- helpers of the module / nested helpers
+    def module_func(self, name):
+        for node in self.tree.body:
+            if isinstance(node, ast.FunctionDef) and node.name == name:
+                return node
+        return None
+
+    def is_valid_helper(self, f):
+        body = strip_doc(f.body)
+        if len(f.args.args) != 1 or len(body) != 1 or not isinstance(body[0], ast.Return):
+            return False
+        p = f.args.args[0].arg
+        return ast.dump(body[0].value) == VALID_REF.replace("id='X'", "id='{}'".format(p))
+
+    # -- expressions
+    def ev(self, node, env):
+        if isinstance(node, ast.Constant):
+            if type(node.value) is int:
+                return ("int", node.value)
+            if type(node.value) is bool:
+                return ("bool", node.value)
+            terr(node, "constant outside the subset: " + ast.unparse(node))
+        if isinstance(node, ast.Name):
+            if node.id in env:
+                return env[node.id]
+            terr(node, "unknown name " + node.id)
+        if isinstance(node, ast.Tuple):
+            return ("tuple", [self.ev(e, env) for e in node.elts])
+        if isinstance(node, ast.Attribute):
+            if isinstance(node.value, ast.Name) and node.value.id == "SigFigMode" and node.attr in MODES:
+                return ("enum", node.attr)
+            base = self.ev(node.value, env)
+            if base == ("settings",) and node.attr == "sig_fig_mode":
+                return ("enum", self.mode)
+            if base == ("settings",) and node.attr == "sig_fig_value":
+                return ("n",)
+            terr(node, "attribute outside the subset: " + ast.unparse(node))
+        if isinstance(node, ast.List):
+            return ("list", [self.ev(e, env) for e in node.elts])
+        if isinstance(node, ast.Compare) and len(node.ops) == 1:
+            a, b, op = self.ev(node.left, env), self.ev(node.comparators[0], env), node.ops[0]
+            if a[0] == "enum" and b[0] == "enum" and isinstance(op, (ast.Eq, ast.NotEq, ast.Is, ast.IsNot)):
+                return ("bool", (a == b) == isinstance(op, (ast.Eq, ast.Is)))
+            if a[0] == "enum" and b[0] == "list" and all(x[0] == "enum" for x in b[1]) and isinstance(op, (ast.In, ast.NotIn)):
+                return ("bool", (a in b[1]) == isinstance(op, ast.In))
+            if is_int(a) and b[0] == "int" and isinstance(op, (ast.Gt, ast.GtE, ast.Lt, ast.LtE)):
+                return ("cmp", type(op).__name__, a, b[1])
+            terr(node, "comparison outside the subset: " + ast.unparse(node))
+        if isinstance(node, ast.BoolOp):
+            isand = isinstance(node.op, ast.And)
+            acc = None
+            for sub in node.values:
+                v = self.ev(sub, env)
+                if v[0] == "bool":
+                    if v[1] != isand:          # short circuit: False in an `and`, True in an `or`
+                        return v if acc is None else terr(node, "mixed condition outside the subset")
+                    continue                   # neutral element
+                if v[0] in ("valid", "notvalid") and acc is None:
+                    acc = v
+                    continue
+                terr(node, "condition outside the subset: " + ast.unparse(node))
+            return acc if acc is not None else ("bool", isand)
+        if isinstance(node, ast.UnaryOp) and isinstance(node.op, ast.Not):
+            v = self.ev(node.operand, env)
+            if v[0] == "bool":
+                return ("bool", not v[1])
+            if v[0] == "valid":
+                return ("notvalid", v[1])
+            if v[0] == "notvalid":
+                return ("valid", v[1])
+            terr(node, "negation outside the subset")
+        if isinstance(node, ast.UnaryOp) and isinstance(node.op, ast.USub):
+            v = self.ev(node.operand, env)
+            if is_int(v):
+                return ("neg", v)
+            terr(node, "unary minus outside the subset")
+        if isinstance(node, ast.BinOp):
+            if isinstance(node.op, ast.Pow):
+                base, z = self.ev(node.left, env), self.ev(node.right, env)
+                if base == ("int", 10) and is_int(z):
+                    return ("pow10", z)
+                terr(node, "power outside the subset: " + ast.unparse(node))
+            a, b = self.ev(node.left, env), self.ev(node.right, env)
+            if isinstance(node.op, (ast.Add, ast.Sub)) and is_int(a) and is_int(b):
+                return ("add" if isinstance(node.op, ast.Add) else "sub", a, b)
+            if isinstance(node.op, ast.Div) and a[0] == "num" and b[0] == "pow10":
+                return ("quot", a[1], b[1])
+            if isinstance(node.op, ast.Mult) and a[0] == "round" and b[0] == "pow10" and a[2] == b[1]:
+                return ("rounded", a[1], b[1])
+            terr(node, "arithmetic outside the subset: " + ast.unparse(node))
+        if isinstance(node, ast.IfExp):
+            t = self.ev(node.test, env)
+            if t[0] == "bool":
+                return self.ev(node.body if t[1] else node.orelse, env)
+            if t[0] in ("valid", "notvalid"):
+                a, b = self.ev(node.body, env), self.ev(node.orelse, env)
+                if t[0] == "notvalid":
+                    a, b = b, a
+                if a[0] == "orderof" and b[0] == "orderof" and a[1] == t[1] and b[1] != t[1]:
+                    return ("sel", a[1], b[1])
+                terr(node, "conditional on validity outside the subset: " + ast.unparse(node))
+            if t[0] == "cmp":
+                return ("ifz", t[1], t[2], t[3], self.ev(node.body, env), self.ev(node.orelse, env))
+            terr(node, "conditional outside the subset")
+        if isinstance(node, ast.Call):
+            return self.call(node, env)
+        terr(node, "expression outside the subset: " + ast.unparse(node))
+
+    def call(self, node, env):
+        src = ast.unparse(node.func)
+        if node.keywords:
+            terr(node, "keyword arguments outside the subset")
+        if src == "sts.get_settings" and not node.args:
+            return ("settings",)
+        if src == "m.floor" and len(node.args) == 1 and isinstance(node.args[0], ast.Call) \
+                and ast.unparse(node.args[0].func) == "m.log10" and len(node.args[0].args) == 1 \
+                and isinstance(node.args[0].args[0], ast.Call) and ast.unparse(node.args[0].args[0].func) == "abs" \
+                and len(node.args[0].args[0].args) == 1:
+            x = self.ev(node.args[0].args[0].args[0], env)
+            if x[0] == "num":
+                return ("order", x[1])
+            terr(node, "order of magnitude of something that is not one of the two numbers")
+        if src == "round" and len(node.args) == 1:
+            x = self.ev(node.args[0], env)
+            if x[0] == "quot":
+                return ("round", x[1], x[2])
+            terr(node, "round() of something that is not number / back_off")
+        if src == "max" and len(node.args) == 2:
+            a, b = self.ev(node.args[0], env), self.ev(node.args[1], env)
+            if is_int(a) and is_int(b):
+                return ("max", a, b)
+            terr(node, "max() outside the subset")
+        if isinstance(node.func, ast.Name):
+            name = node.func.id
+            f = env.get(("func", name)) or self.module_func(name)
+            if f is None:
+                terr(node, "call of an unknown function " + name)
+            if self.is_valid_helper(f) and len(node.args) == 1:
+                x = self.ev(node.args[0], env)
+                if x[0] == "num":
+                    return ("valid", x[1])
+                terr(node, "validity of something that is not one of the two numbers")
+            if name == "order_of" and env.get(("func", name)) is not None and len(node.args) == 1:
+                x = self.ev(node.args[0], env)       # the local helper of __find_number_of_decimals, translated separately
+                if x[0] == "num":
+                    return ("orderof", x[1])
+                terr(node, "order_of of something that is not one of the two numbers")
+            # a private helper with a single return: inline it
+            body = strip_doc(f.body)
+            if len(body) == 1 and isinstance(body[0], ast.Return) and len(f.args.args) == len(node.args) \
+                    and not f.args.vararg and not f.args.kwarg and not f.args.kwonlyargs:
+                inner = {k: v for k, v in env.items() if isinstance(k, tuple)}
+                for a, arg in zip(f.args.args, node.args):
+                    inner[a.arg] = self.ev(arg, env)
+                return self.ev(body[0].value, inner)
+        terr(node, "call outside the subset: " + ast.unparse(node))
+
+    # -- statements; returns the value returned by the block, or None when it falls through (env updated in place)
+    def run(self, stmts, env):
+        for i, st in enumerate(stmts):
+            if isinstance(st, ast.Expr) and isinstance(st.value, ast.Constant) and isinstance(st.value.value, str):
+                continue
+            if isinstance(st, ast.FunctionDef):
+                env[("func", st.name)] = st
+                continue
+            if isinstance(st, ast.Assign) and len(st.targets) == 1:
+                tgt, val = st.targets[0], self.ev(st.value, env)
+                if isinstance(tgt, ast.Name):
+                    env[tgt.id] = val
+                elif isinstance(tgt, ast.Tuple) and val[0] == "tuple" and len(tgt.elts) == len(val[1]) \
+                        and all(isinstance(e, ast.Name) for e in tgt.elts):
+                    for e, v in zip(tgt.elts, val[1]):
+                        env[e.id] = v
+                else:
+                    terr(st, "assignment outside the subset")
+                continue
+            if isinstance(st, ast.Return):
+                return self.ev(st.value, env)
+            if isinstance(st, ast.If):
+                t = self.ev(st.test, env)
+                rest = stmts[i + 1:]
+                if t[0] == "bool":
+                    return self.run((st.body if t[1] else st.orelse) + rest, env)
+                if t[0] in ("valid", "notvalid"):
+                    a = self.run(st.body + rest, dict(env))
+                    b = self.run(st.orelse + rest, dict(env))
+                    if a is None or b is None:
+                        terr(st, "a path falls off the end of the function")
+                    if t[0] == "notvalid":
+                        a, b = b, a
+                    return ("ifvalid", t[1], a, b)
+                terr(st, "if-condition outside the subset: " + ast.unparse(st.test))
+            terr(st, "statement outside the subset: " + type(st).__name__)
+        return None
+
+
+def strip_doc(body):
+    return [s for s in body if not (isinstance(s, ast.Expr) and isinstance(s.value, ast.Constant)
+                                    and isinstance(s.value.value, str))]
+
+
+# ---- printing integer expressions as Gallina ---------------------------------------------------------------
+def zcoq(v, ordername):
+    """[ordername]: what the order-of-magnitude leaves are called in the emitted definition"""
+    k = v[0]
+    if k == "int":
+        return "({})".format(v[1])
+    if k == "n":
+        return "n"
+    if k in ("order", "orderof", "sel"):
+        return ordername
+    if k == "neg":
+        return "(- {})".format(zcoq(v[1], ordername))
+    if k in ("add", "sub"):
+        return "({} {} {})".format(zcoq(v[1], ordername), "+" if k == "add" else "-", zcoq(v[2], ordername))
+    raise ValueError(v)
+
+
+def leaves(v):
+    if v[0] in ("order", "orderof", "sel"):
+        return [v]
+    if v[0] in ("neg",):
+        return leaves(v[1])
+    if v[0] in ("add", "sub"):
+        return leaves(v[1]) + leaves(v[2])
+    return []
+
+
+def find_func(tree, name, parent=None):
+    for node in ast.walk(parent or tree):
+        if isinstance(node, ast.FunctionDef) and node.name == name:
+            return node
+    terr(tree, "function {} not found".format(name))
 
 
 def qexpr(node):
@@ -47,20 +299,15 @@ def qexpr(node):
     terr(node, "rational constant outside the subset: " + ast.unparse(node))
 
 
-def find_func(tree, name, parent=None):
-    for node in ast.walk(parent or tree):
-        if isinstance(node, ast.FunctionDef) and node.name == name:
-            return node
-    terr(tree, "function {} not found".format(name))
-
-
-def assigns_to(func, target):
-    out = []
-    for node in ast.walk(func):
-        if isinstance(node, ast.Assign) and len(node.targets) == 1 and isinstance(node.targets[0], ast.Name) \
-                and node.targets[0].id == target:
-            out.append(node)
-    return out
+def zexpr_plain(node, env):
+    if isinstance(node, ast.Name) and node.id in env:
+        return env[node.id]
+    if isinstance(node, ast.Constant) and type(node.value) is int:
+        return "({})".format(node.value)
+    if isinstance(node, ast.BinOp) and isinstance(node.op, (ast.Add, ast.Sub)):
+        return "({} {} {})".format(zexpr_plain(node.left, env), "+" if isinstance(node.op, ast.Add) else "-",
+                                   zexpr_plain(node.right, env))
+    terr(node, "integer expression outside the subset: " + ast.unparse(node))
 
 
 def gen_printing(repo):
@@ -68,72 +315,84 @@ def gen_printing(repo):
     tree = ast.parse(src)
     out = ["(** GENERATED by tools/gens/printing.py from {} -- do not edit. *)".format(FILE),
            "From Coq Require Import ZArith QArith.", "Open Scope Z_scope.", ""]
+    ref_of = {"AUTOMATIC": "error", "ERROR": "error", "VALUE": "value"}
 
-    # --- __round_values_to_sig_figs: back_off = 10 ** (<exponent>)
+    # --- __round_values_to_sig_figs, once per mode
     rv = find_func(tree, "__round_values_to_sig_figs")
-    backs = assigns_to(rv, "back_off")
-    if len(backs) != 2:
-        terr(rv, "expected two assignments to back_off, found {}".format(len(backs)))
-    seen = {}
-    for a in backs:
-        v = a.value
-        if not (isinstance(v, ast.BinOp) and isinstance(v.op, ast.Pow) and isinstance(v.left, ast.Constant)
-                and v.left.value == 10 and type(v.left.value) is int):
-            terr(a, "back_off is not 10 ** (...)")
-        names = {n.id for n in ast.walk(v.right) if isinstance(n, ast.Name)}
-        if names == {"order_of_error", "sig_fig_value"}:
-            key, env = "err", {"order_of_error": "order", "sig_fig_value": "n"}
-        elif names == {"order_of_value", "sig_fig_value"}:
-            key, env = "val", {"order_of_value": "order", "sig_fig_value": "n"}
-        else:
-            terr(a, "back_off exponent uses unexpected names {}".format(sorted(names)))
-        if key in seen:
-            terr(a, "two back_off assignments for the same reference number")
-        seen[key] = zexpr(v.right, env)
-    for key in ("err", "val"):
-        out.append("Definition gen_back_off_exp_{} (order n : Z) : Z := {}.".format(key, seen[key]))
-    # the order used must be floor(log10(abs(.))) of the matching number
-    for name, arg in (("order_of_error", "error"), ("order_of_value", "value")):
-        xs = assigns_to(rv, name)
-        if len(xs) != 1 or ast.unparse(xs[0].value) != "m.floor(m.log10(abs({})))".format(arg):
-            terr(rv, "{} is not m.floor(m.log10(abs({})))".format(name, arg))
-    # both numbers are rounded by round(x / back_off) * back_off
-    for name, arg in (("rounded_error", "error"), ("rounded_value", "value")):
-        xs = assigns_to(rv, name)
-        if len(xs) != 1:
-            terr(rv, "expected one assignment to {}".format(name))
+    if [a.arg for a in rv.args.args] != ["value", "error"]:
+        terr(rv, "parameters are not (value, error)")
+    exps = {}
+    for mode in MODES:
+        res = Exec(tree, mode).run(rv.body, {"value": ("num", "value"), "error": ("num", "error")})
+        ref = ref_of[mode]
+        if not (res and res[0] == "ifvalid" and res[1] == ref):
+            terr(rv, "in mode {} the rounding is not guarded by the validity of the {}".format(mode, ref))
+        if res[3] != ("tuple", [("num", "value"), ("num", "error")]):
+            terr(rv, "in mode {} an invalid {} does not return the pair unchanged".format(mode, ref))
+        good = res[2]
+        if not (good[0] == "tuple" and len(good[1]) == 2 and good[1][0][0] == "rounded" and good[1][1][0] == "rounded"
+                and good[1][0][1] == "value" and good[1][1][1] == "error" and good[1][0][2] == good[1][1][2]):
+            terr(rv, "in mode {} the result is not (round(value / b) * b, round(error / b) * b) with one b = 10 ** z".format(mode))
+        z = good[1][0][2]
+        lv = leaves(z)
+        if not lv or any(x != ("order", ref) for x in lv):
+            terr(rv, "in mode {} the back-off does not use floor(log10(abs({}))) only".format(mode, ref))
+        exps[mode] = zcoq(z, "order")
+    if exps["AUTOMATIC"] != exps["ERROR"]:
+        terr(rv, "AUTOMATIC and ERROR mode use different back-off exponents")
+    out.append("Definition gen_back_off_exp_err (order n : Z) : Z := {}.".format(exps["ERROR"]))
+    out.append("Definition gen_back_off_exp_val (order n : Z) : Z := {}.".format(exps["VALUE"]))
 
-    # --- __find_number_of_decimals
+    # --- __find_number_of_decimals, once per mode
     fd = find_func(tree, "__find_number_of_decimals")
-    nd = assigns_to(fd, "number_of_decimals")
-    if len(nd) != 1:
-        terr(fd, "expected one assignment to number_of_decimals")
-    out.append("Definition gen_decimals_exp (order n : Z) : Z := {}.".format(
-        zexpr(nd[0].value, {"order": "order", "sig_fig_value": "n"})))
-    ret = fd.body[-1]
-    if not (isinstance(ret, ast.Return) and isinstance(ret.value, ast.IfExp)):
-        terr(ret, "last statement is not `return a if test else b`")
-    ife = ret.value
-    t = ife.test
-    if not (isinstance(t, ast.Compare) and len(t.ops) == 1 and isinstance(t.left, ast.Name)
-            and t.left.id == "number_of_decimals" and isinstance(t.comparators[0], ast.Constant)
-            and type(t.comparators[0].value) is int):
-        terr(t, "clamp test is not number_of_decimals <op> <int>")
-    k = t.comparators[0].value
-    cmpop = {ast.Gt: "({} <? d)".format(k), ast.GtE: "({} <=? d)".format(k), ast.Lt: "(d <? {})".format(k),
-             ast.LtE: "(d <=? {})".format(k)}.get(type(t.ops[0]))
-    if cmpop is None:
-        terr(t, "clamp comparison outside the subset")
-    env = {"number_of_decimals": "d"}
-    out.append("Definition gen_clamp (d : Z) : Z := if {} then {} else {}.".format(
-        cmpop, zexpr(ife.body, env), zexpr(ife.orelse, env)))
+    if [a.arg for a in fd.args.args] != ["value", "error"]:
+        terr(fd, "parameters are not (value, error)")
+    shapes = set()
+    for mode in MODES:
+        res = Exec(tree, mode).run(fd.body, {"value": ("num", "value"), "error": ("num", "error")})
+        ref = ref_of[mode]
+        other = "value" if ref == "error" else "error"
+        if res is None:
+            terr(fd, "falls off the end")
+        if res[0] == "max":
+            a, b = res[1], res[2]
+            if a[0] == "int":
+                a, b = b, a
+            if b[0] != "int":
+                terr(fd, "max() of two non-constants")
+            d, clamp = a, "Z.max d ({})".format(b[1])
+        elif res[0] == "ifz":
+            _, op, d, k, body, orelse = res
+            cmpop = {"Gt": "({} <? d)", "GtE": "({} <=? d)", "Lt": "(d <? {})", "LtE": "(d <=? {})"}[op].format(k)
+
+            def side(x):
+                if x == d:
+                    return "d"
+                if x[0] == "int":
+                    return "({})".format(x[1])
+                terr(fd, "clamp branch is neither the number of decimals nor a constant")
+            clamp = "if {} then {} else {}".format(cmpop, side(body), side(orelse))
+        else:
+            terr(fd, "the result is not a clamped number of decimals")
+        lv = leaves(d)
+        if not lv or any(x != ("sel", ref, other) for x in lv):
+            terr(fd, "in mode {} the decimals do not come from order_of({}) if valid else order_of({})".format(mode, ref, other))
+        shapes.add((zcoq(d, "order"), clamp))
+    if len(shapes) != 1:
+        terr(fd, "the three modes compute the number of decimals differently")
+    dexp, clamp = shapes.pop()
+    out.append("Definition gen_decimals_exp (order n : Z) : Z := {}.".format(dexp))
+    out.append("Definition gen_clamp (d : Z) : Z := {}.".format(clamp))
 
     # --- the local helper order_of
     oo = find_func(tree, "order_of", fd)
-    body = [s for s in oo.body if not (isinstance(s, ast.Expr) and isinstance(s.value, ast.Constant))]
+    body = strip_doc(oo.body)
+    if len(oo.args.args) != 1 or oo.args.args[0].arg != "number":
+        terr(oo, "order_of does not take one parameter `number`")
     if len(body) != 2 or not isinstance(body[0], ast.Assign) or not isinstance(body[1], ast.Return):
         terr(oo, "order_of is not `result = ...; return ...`")
-    if ast.unparse(body[0]) != "result = m.floor(m.log10(abs(number)))":
+    if ast.unparse(body[0].targets[0]) != "result" or \
+            Exec(tree, "ERROR").ev(body[0].value, {"number": ("num", "error")}) != ("order", "error"):
         terr(body[0], "result is not m.floor(m.log10(abs(number)))")
     r = body[1].value
     if not (isinstance(r, ast.IfExp) and isinstance(r.test, ast.Compare) and len(r.test.ops) == 1
@@ -145,8 +404,8 @@ def gen_printing(repo):
             and rhs.left.left.value == 10 and type(rhs.left.left.value) is int):
         terr(rhs, "threshold is not 10 ** (...) * <factor>")
     env = {"result": "result"}
-    out.append("Definition gen_snap_next (result : Z) : Z := {}.".format(zexpr(rhs.left.right, env)))
-    out.append("Definition gen_snap_bump (result : Z) : Z := {}.".format(zexpr(r.body, env)))
+    out.append("Definition gen_snap_next (result : Z) : Z := {}.".format(zexpr_plain(rhs.left.right, env)))
+    out.append("Definition gen_snap_bump (result : Z) : Z := {}.".format(zexpr_plain(r.body, env)))
     if not (isinstance(r.orelse, ast.Name) and r.orelse.id == "result"):
         terr(r.orelse, "order_of's other branch is not `result`")
     out.append("Open Scope Q_scope.")
